@@ -74,7 +74,10 @@ func (t *Term) Atoms() map[string]bool {
 		switch x.Op {
 		case "call", "field", "param", "const", "global", "freevar", "make":
 			m[x.Op+":"+x.Name] = true
-		case "len", "not", "phi", "index", "slice", "lookup", "extract":
+		case "extract":
+			m[x.Op] = true
+			m[x.Op+":"+x.Name] = true
+		case "len", "not", "phi", "index", "slice", "lookup", "next", "range", "closure", "typeassert":
 			m[x.Op] = true
 		default:
 			if strings.HasPrefix(x.Op, "binop") {
@@ -112,6 +115,12 @@ func atomsHave(atoms map[string]bool, pat string) bool {
 func (t *Term) Has(pats ...string) bool {
 	at := t.Atoms()
 	for _, p := range pats {
+		if strings.HasPrefix(p, "!") { // negative pattern: must not be present
+			if t.Has(p[1:]) {
+				return false
+			}
+			continue
+		}
 		if strings.HasPrefix(p, "^") { // root-operator pattern (seen through single-valued locals)
 			for (t.Op == "local" || t.Op == "phi") && len(t.Args) == 1 {
 				t = t.Args[0]
